@@ -1470,6 +1470,33 @@ def gen_world_wide_piece(rng):
     return w
 
 
+def gen_world_pad_named_candidates(rng):
+    """C02: a file's NAME on disk never decides whether it is a candidate — only its length does. (1) a torrent file of real
+    data whose path ends in `.pad/<digits>` below another directory (three components: not a padding file), kept in the scan
+    directory under its own path; (2) a blank single-file torrent whose only source is the padding file another download
+    left behind, `<album>/.pad/<n>`; (3) a real file kept as `.pad/<n>` directly below the scan directory."""
+    w = World()
+    la, lb, lz = rng.range(3, 9), rng.range(9, 15), rng.range(15, 22)
+    digits = rng.choice([b"7", b"0", b"12", b"007", b"\xd9\xa3"])          # the last one: ARABIC-INDIC DIGIT THREE
+    fa = TFile(la, [b"readme.txt"], gen_content(rng, la))
+    fb = TFile(lb, [b"extras", b".pad", digits], gen_content(rng, lb))
+    g1 = GT(b"Set", rng.choice([4, 5, 16]), [fa, fb], True)
+    g2 = GT(b"blank.img", rng.choice([4, 8, 32]), [TFile(lz, [b"blank.img"], bytes(lz))], False)
+    lc = lz + rng.range(1, 5)
+    g3 = GT(b"plain.bin", rng.choice([4, 8, 32]), [TFile(lc, [b"plain.bin"], gen_content(rng, lc))], False)
+    w.gts = [g1, g2, g3]; w.docs = [g.doc for g in w.gts]
+    w.dirs.add(w.export)
+    w.scan = [(b"scan0",)]
+    w.add_file((b"scan0", b"Set", b"readme.txt"), fa.content)
+    w.add_file((b"scan0", b"Set", b"extras", b".pad", digits), fb.content)
+    w.add_file((b"scan0", b"Some Album", b".pad", b"%d" % lz), bytes(lz))
+    w.add_file((b"scan0", b".pad", b"%d" % lc), g3.files[0].content)
+    w.add_file((b"bystander", b"note.txt"), b"do not touch")
+    w.threads = rng.choice([1, 1, 2, 0])
+    w.tag = "candidates named like padding files"
+    return w
+
+
 def gen_world_name_max(rng):
     """C04 / C11 / C12: file names at the NAME_MAX boundary — one of exactly 255 bytes (exportable) and siblings that extend
     it (259 bytes: the OS refuses them). The long ones must fault; they must never land on the 255-byte file's image.
